@@ -18,8 +18,10 @@ structure Core (δ : Type) where
   cliCC : Bool
   dec : Option δ
   cr : Option Bytes
+  hsBufC : Bytes
+  hsBufS : Bytes
 
-def St.core (s : St δ) : Core δ := ⟨s.canDecrypt, s.chSeen, s.ver, s.srvCC, s.cliCC, s.dec, s.cr⟩
+def St.core (s : St δ) : Core δ := ⟨s.canDecrypt, s.chSeen, s.ver, s.srvCC, s.cliCC, s.dec, s.cr, s.hsBufC, s.hsBufS⟩
 
 theorem St.ext' (a b : St δ) (hc : a.core = b.core) (ht : a.traffic = b.traffic) : a = b := by
   cases a; cases b
@@ -37,6 +39,13 @@ def St.strip (s : St δ) : St δ := { s with traffic := s.traffic.filter (·.isA
 @[simp] theorem strip_cliCC (s : St δ) : s.strip.cliCC = s.cliCC := rfl
 @[simp] theorem strip_dec (s : St δ) : s.strip.dec = s.dec := rfl
 @[simp] theorem strip_cr (s : St δ) : s.strip.cr = s.cr := rfl
+@[simp] theorem strip_hsBufC (s : St δ) : s.strip.hsBufC = s.hsBufC := rfl
+@[simp] theorem strip_hsBufS (s : St δ) : s.strip.hsBufS = s.hsBufS := rfl
+@[simp] theorem strip_hsBuf (s : St δ) (srv : Bool) : s.strip.hsBuf srv = s.hsBuf srv := by cases srv <;> rfl
+theorem setHsBuf_traffic (s : St δ) (srv : Bool) (b : Bytes) : (s.setHsBuf srv b).traffic = s.traffic := by
+  cases srv <;> rfl
+theorem setHsBuf_strip (s : St δ) (srv : Bool) (b : Bytes) : (s.setHsBuf srv b).strip = s.strip.setHsBuf srv b := by
+  cases srv <;> rfl
 @[simp] theorem strip_traffic (s : St δ) : s.strip.traffic = s.traffic.filter (·.isApp) := rfl
 
 theorem strip_push_app (s : St δ) (e : Entry) (h : e.isApp = true) : (s.push e).strip = s.strip.push e := by
@@ -245,7 +254,7 @@ theorem app13_appends (O : Ops δ) (s : St δ) (r : Rec) (srv : Bool) : Appends 
       split
       · exact Appends.of_traffic_eq _ _ _ _ rfl
       · split
-        · split <;> exact Appends.of_traffic_eq _ _ _ _ rfl
+        · split <;> exact Appends.of_traffic_eq _ _ _ _ (setHsBuf_traffic _ _ _)
         · split
           · exact Appends.push r srv { s with dec := some d1 } _ true
           · exact Appends.of_traffic_eq _ _ _ _ rfl
@@ -265,7 +274,8 @@ theorem app13_strip (O : Ops δ) (s : St δ) (r : Rec) (srv : Bool) :
       split
       · rfl
       · split
-        · split <;> rfl
+        · simp only [strip_hsBuf]
+          split <;> (simp only [Out.st, setHsBuf_strip]; rfl)
         · split
           · simp only [Out.st]; rw [strip_push_app _ _ rfl]; rfl
           · rfl
